@@ -18,6 +18,7 @@ let register k f = Hashtbl.replace handlers k f
 let () = Drv_mode.install register get getn geti getb
 let () = Drv_wire.install register get getn geti getb
 let () = Drv_client.install register get getn geti getb
+let () = Drv_srv.install register get getn geti getb
 
 let () =
   (try while true do
